@@ -27,7 +27,7 @@ namespace ptx
         return c1 | (s2 < s ? 1u : 0u);
     }
     template <class U> static inline U subr(U x, U y, uint32_t bi) { return (U)(x - y - (U)bi); }
-    template <class U> static inline uint32_t subb(U x, U y, uint32_t bi) { return (x < y) ? 1u : 0u; }
+    template <class U> static inline uint32_t subb(U x, U y, uint32_t bi) { return (x < y || (bi && x == y)) ? 1u : 0u; }
     // ---- products
     template <class U> static inline U mullo(U x, U y) { return (U)(x * y); }
     static inline uint32_t mulhi_(uint32_t x, uint32_t y) { return (uint32_t)(((uint64_t)x * y) >> 32); }
